@@ -105,6 +105,20 @@ CLAIMED["C08"] = dict(
          "not leak, caller's array not adopted, non-Boolean masks converted) is decided on a native execution per operator.",
     ref="DESIGN.md section 2 / C08",
 )
+CLAIMED["C14"] = dict(
+    text="The subregions setter is run with symbolic candidate box corners on concrete meshes (accepted only within the "
+         "alignment tolerances of the lattice and inside; rejection leaves the previous dictionary, whichever position the "
+         "bad entry has) and with symbolic mesh geometry for exact lattice boxes and symbolic shifted / oversized / fractional "
+         "ones; is_aligned with symbolic offset and cell-size defect; plane and range selection with symbolic coordinates keep "
+         "exactly the overlapping subregions clipped to the slab (integer-typed corners with fractional cells included); "
+         "mesh[name]; JSON side-car round trip through the library's encoder; translate/scale/rotate90 through C13's "
+         "inductive-step harness; plus a native binary64 sweep over every cell range of decimal meshes whose subregion "
+         "corners come from mesh.vertices (face coincidence up to an ulp).",
+    ref="DESIGN.md section 2 / C14",
+    note=NOTE_COMMON + "; candidate-box acceptance and most selections use concrete mesh geometry with symbolic coordinates (floor/"
+         "remainder of symbolic/symbolic is out of reach within the quick budget; thorough adds symbolic geometry in 1-d/2-d); "
+         "offsets beyond 1000 edge lengths and cells below 1e-9 are outside the claim; HDF5 persistence of subregions is C10's harness",
+)
 PENDING_REASON = "check not built yet in this round (planned: DESIGN.md section 2); not claimed until it runs green"
 NA = {}
 
